@@ -158,6 +158,28 @@ def stressCases : G (List String) := do
     let big ← genPic { flavour := 0 } 0 (48, 32) 7 true
     out := s!"P 1 d:{hexOf { p with mbs := p.mbs ++ extra }};n" :: out
     out := s!"P 1 d:{hexOf big};d:{hexOf small};n" :: s!"P 1 d:{hexOf p};d:{hexOf { small with hdr := big.hdr, mbs := small.mbs }}" :: out
+  -- standard mode: a macroblock error followed by a start code with a GOB number (1..14, 16..30: GOB headers are not implemented;
+  -- 0 / 15 / 31 read as a picture start or end of sequence)
+  for gid in [1, 7, 14, 0, 15, 31, 16, 30] do
+    for fl in [2, 3] do
+      let p ← genPic { flavour := fl } 0 (128, 96) 4 true
+      let bytes := encodePic { p with mbs := p.mbs.take 5 } ++ [0, 0, 0x80 + gid * 4, 0x55, 0xAA]
+      out := s!"P 0 d:{hex bytes.toArray};n" :: out
+  -- PLUSPTYPE + UMV: a motion vector difference in the UMV code that never terminates (twelve continuation pairs): InvalidMvd;
+  -- and the longest ones that do terminate
+  for pairs in [12, 11, 10, 1, 0] do
+    for sign in [false, true] do
+      let i ← genPic { flavour := 3 } 0 (32, 32) 1 true
+      let ph : PlusHdr := { tr := 2, ufep := true, srcFmt := 6, umv := true, uuiUnlimited := true, picType := 1, par := 2, pwi := 7, phi := 8, quant := 5 }
+      let cont : Bits := (List.range pairs).flatMap fun k => [decide (k % 2 = 1), true]
+      let mvd := if pairs = 0 then [true] else [false] ++ cont ++ (if pairs = 12 then [] else [sign, false])
+      let mb := [false, true, true, true] ++ mvd ++ mvd
+      let bits := (HdrD.plus ph).encode ++ mb ++ mb ++ mb ++ mb
+      out := s!"P 0 d:{hexOf i};d:{hex (bitsToBytes (padToByte bits)).toArray};n" :: out
+  -- PLUSPTYPE predicted picture with UFEP = 000 and no previous picture (no format to inherit)
+  for k in [0, 1, 2] do
+    let p ← genPic { flavour := 3 } 1 (32, 32) k true
+    out := s!"P 0 d:{hexOf p};n" :: out
   pure out.reverse
 
 def runGen (kind : String) (seed count : Nat) : List String :=
